@@ -173,7 +173,11 @@ def render(r, tokens):
         if i:
             prev = tokens[i - 1]
             glue = prev in ('(', ')', '~', '|', '&', '-->') or \
-                t in ('(', ')', '~', '|', '&', '-->')
+                t in ('(', ')', '~', '|', '&', '-->') or \
+                (prev.startswith('"') and not t[0].isalnum() and t[0] != '_'
+                 and not t.startswith('"')) or \
+                (t.startswith('"') and not prev[-1].isalnum()
+                 and prev[-1] != '_' and not prev.startswith('"'))
             if glue and r.random() < 0.5:
                 pass
             else:
